@@ -599,10 +599,10 @@ def explore(scenario, bound, on_outcome, max_exec=200000, free_branch=True, root
     return stats
 
 
-def first_level(scenario, bound, count_all=False):
+def first_level(scenario, bound, count_all=False, low=(), fine=False):
     """The default execution plus the list of (prefix, cost) roots of all sub-trees hanging off it - used to spread one
     exploration over worker processes: explore(root=r) for every r, plus the default execution itself."""
-    out = execute(scenario, [])
+    out = execute(scenario, [], low, fine)
     roots = []
     cost = 0
     for i, (n, run_en, c, label) in enumerate(out.points):
